@@ -327,7 +327,10 @@ func (sc *serverConn) readLoop() (err error) {
 	var expectContinuation uint32
 
 	for err == nil {
-		fr, err = ReadFrameFromWithSize(sc.br, sc.clientS.frameSize)
+		// The limit on what we accept is the SETTINGS_MAX_FRAME_SIZE we
+		// advertise. The client's value says what it accepts, and before its
+		// first SETTINGS frame it is zero, which read as "no limit".
+		fr, err = ReadFrameFromWithSize(sc.br, sc.st.frameSize)
 		if err != nil {
 			if errors.Is(err, ErrUnknownFrameType) {
 				// Unknown frame types are discarded, not rejected (RFC 7540
